@@ -12,45 +12,45 @@ def general(method, entry, o):
     cur = ph
     for (a, b) in o["switches"]:
         if a != cur:
-            probs.append("switch %s->%s recorded while in %s" % (a, b, cur))
+            probs.append("[walk] switch %s->%s recorded while in %s" % (a, b, cur))
         if (a, b) not in ORDER:
-            probs.append("phase switch %s->%s is not along Sleep->Mark->Sweep->Sleep" % (a, b))
+            probs.append("[walk] phase switch %s->%s is not along Sleep->Mark->Sweep->Sleep" % (a, b))
         cur = b
     if o["phase"] != cur:
-        probs.append("exit phase %s differs from last switch target %s" % (o["phase"], cur))
+        probs.append("[walk] exit phase %s differs from last switch target %s" % (o["phase"], cur))
     if o["phase"] == "Drop" or any(b == "Drop" for (_, b) in o["switches"]):
-        probs.append("Phase::Drop produced by a collection call")
+        probs.append("[walk] Phase::Drop produced by a collection call")
     if o["overflow"]:
-        probs.append("unbounded phase cycling within one call")
+        probs.append("[walk] unbounded phase cycling within one call")
     ev = o["events"]
     for i, e in enumerate(ev):
         if e[0] == "panic" and not str(e[1]).startswith("user "):
-            probs.append("collector code panics: %s (%s)" % (e[1], e[2]))
+            probs.append("[panic] collector code panics: %s (%s)" % (e[1], e[2]))
         if e[0] == "unreachable_reached":
-            probs.append("unreachable!() reached in %s" % (e[1],))
+            probs.append("[panic] unreachable!() reached in %s" % (e[1],))
         if e[0] == "switch" and (e[1], e[2]) == ("Mark", "Sweep"):
             prev = [x for x in ev[:i] if x[0] in ("mark_step", "sweep_step", "switch")]
             if not prev or prev[-1][0] != "mark_step" or prev[-1][1] != "Break":
-                probs.append("sweeping begins although the last marking step did not report completion")
+                probs.append("[safety] sweeping begins although the last marking step did not report completion")
         if e[0] == "switch" and (e[1], e[2]) == ("Sweep", "Sleep"):
             prev = [x for x in ev[:i] if x[0] in ("mark_step", "sweep_step", "switch")]
             if not prev or prev[-1][0] != "sweep_step" or prev[-1][1] != "Break":
-                probs.append("cycle ends although the last sweep step did not report an empty cursor")
+                probs.append("[cycle] cycle ends although the last sweep step did not report an empty cursor")
     # O8: a finished cycle leaves the root flagged for the next one
     if o["switches"] and o["switches"][-1] == ("Sweep", "Sleep") and o["pending"] != 1:
-        probs.append("cycle finished without re-flagging the root: the next cycle would mark nothing")
+        probs.append("[safety] cycle finished without re-flagging the root: the next cycle would mark nothing")
     # O5: the sweep cursor is the list head at the moment sweeping begins
     if o["switches"] and o["switches"][-1] == ("Mark", "Sweep") and not any(
             e[0] == "sweep_step" for e in ev[max(i for i, e in enumerate(ev) if e[0] == "switch"):]):
         if o["sweep"] != o["all"]:
-            probs.append("sweep cursor (%s) is not the head of the all-list (%s) when sweeping begins" % (o["sweep"], o["all"]))
+            probs.append("[safety] sweep cursor (%s) is not the head of the all-list (%s) when sweeping begins" % (o["sweep"], o["all"]))
     # finish_cycle(reset_debt) receives exactly `an atomic full cycle was performed since a sleep`
     slept = False
     for e in ev:
         if e[0] == "switch" and (e[1], e[2]) == ("Sleep", "Mark"):
             slept = True
         if e[0] == "finish_cycle" and e[1] != (1 if slept else 0):
-            probs.append("finish_cycle(reset_debt=%s) but the call %s slept before this cycle" % (
+            probs.append("[pacing] finish_cycle(reset_debt=%s) but the call %s slept before this cycle" % (
                 e[1], "has" if slept else "has not"))
     return probs
 
@@ -63,40 +63,40 @@ def per_method(method, entry, o):
     steps = [e for e in ev if e[0] in ("mark_step", "sweep_step")]
     if method in ("mark_debt", "finish_marking"):
         if ("Mark", "Sweep") in sw:
-            probs.append("%s passed from marking into sweeping" % method)
+            probs.append("[walk] %s passed from marking into sweeping" % method)
         if ph == "Sweep":
             if sw or steps:
-                probs.append("%s did work while Sweeping (switches %s, %d step(s))" % (method, sw, len(steps)))
+                probs.append("[walk] %s did work while Sweeping (switches %s, %d step(s))" % (method, sw, len(steps)))
         if ph == "Mark" and pending == 0:
             if sw or o["phase"] != "Mark" or o["pending"] != 0:
-                probs.append("%s left Marked" % method)
+                probs.append("[walk] %s left Marked" % method)
         if o["kind"] == "return":
             marked = o["phase"] == "Mark" and o["pending"] == 0
             if (o["ret"] == "Some") != marked:
-                probs.append("returned %s but the arena ends %s" % (o["ret"], "Marked" if marked else "not Marked"))
+                probs.append("[handout] returned %s but the arena ends %s" % (o["ret"], "Marked" if marked else "not Marked"))
             if method == "finish_marking" and (o["ret"] == "Some") != (ph != "Sweep"):
-                probs.append("finish_marking returned %s from entry phase %s" % (o["ret"], ph))
+                probs.append("[walk] finish_marking returned %s from entry phase %s" % (o["ret"], ph))
     if method in ("cycle_debt", "finish_cycle"):
         for i in range(len(sw) - 1):
             if sw[i] == ("Sweep", "Sleep") and sw[i + 1] == ("Sleep", "Mark"):
-                probs.append("%s passed from Sweeping into a new Marking within one call" % method)
+                probs.append("[walk] %s passed from Sweeping into a new Marking within one call" % method)
         if sw.count(("Sweep", "Sleep")) > 1:
-            probs.append("%s finished two cycles in one call" % method)
+            probs.append("[walk] %s finished two cycles in one call" % method)
         if method == "finish_cycle" and o["kind"] == "return":
             if o["phase"] != "Sleep":
-                probs.append("finish_cycle returned in phase %s" % o["phase"])
+                probs.append("[cycle] finish_cycle returned in phase %s" % o["phase"])
             if ph == "Sleep" and list(sw) != [("Sleep", "Mark"), ("Mark", "Sweep"), ("Sweep", "Sleep")]:
-                probs.append("finish_cycle from Sleeping did not perform exactly one whole cycle: %s" % (sw,))
+                probs.append("[cycle] finish_cycle from Sleeping did not perform exactly one whole cycle: %s" % (sw,))
             if ph != "Sleep" and ("Sleep", "Mark") in sw:
-                probs.append("finish_cycle from mid-cycle started a new cycle")
+                probs.append("[walk] finish_cycle from mid-cycle started a new cycle")
     if method == "start_sweeping" and o["kind"] == "return":
         if o["phase"] != "Sweep" or list(sw) != [("Mark", "Sweep")]:
-            probs.append("start_sweeping ended in %s via %s" % (o["phase"], sw))
+            probs.append("[handout] start_sweeping ended in %s via %s" % (o["phase"], sw))
         if any(e[0] == "sweep_step" for e in ev):
-            probs.append("start_sweeping performed a sweep step")
+            probs.append("[walk] start_sweeping performed a sweep step")
     if method == "collect_debt":
         if sw.count(("Sleep", "Mark")) > 1:
-            probs.append("collect_debt woke twice in one call")
+            probs.append("[walk] collect_debt woke twice in one call")
     return probs
 
 
@@ -109,20 +109,20 @@ def pacing_structure(method, entry, o):
     debts = [e for e in ev if e[0] == "debt"]
     work = [e for e in ev if e[0] in ("mark_step", "sweep_step", "switch")]
     if not debts:
-        probs.append("debt never consulted by a debt-driven call")
+        probs.append("[pacing] debt never consulted by a debt-driven call")
         return probs
     first_debt_idx = ev.index(debts[0])
     if any(ev.index(w) < first_debt_idx for w in work):
-        probs.append("work or a phase switch happens before the debt is first consulted (the collector "
+        probs.append("[pacing] work or a phase switch happens before the debt is first consulted (the collector "
                      "wakes / makes progress with zero debt)")
     if debts[0][1] == "zero" and work:
-        probs.append("zero debt on entry but the call made progress: %s" % (work[:3],))
+        probs.append("[pacing] zero debt on entry but the call made progress: %s" % (work[:3],))
     # re-check after every unit of work
     last_step = None
     for i, e in enumerate(ev):
         if e[0] in ("mark_step", "sweep_step") and e[1] == "Continue":
             if last_step is not None and not any(x[0] == "debt" for x in ev[last_step + 1:i]):
-                probs.append("two units of work without re-checking the debt in between")
+                probs.append("[pacing] two units of work without re-checking the debt in between")
             last_step = i
     if o["kind"] == "return":
         at_stop = False
@@ -133,6 +133,6 @@ def pacing_structure(method, entry, o):
         if method == "collect_debt":
             at_stop = o["phase"] == "Sleep" and ("Sleep", "Mark") in o["switches"] and ("Sweep", "Sleep") in o["switches"]
         if not at_stop and debts[-1][1] != "zero":
-            probs.append("returned in phase %s (pending=%s) with positive debt and not at the method's stop "
+            probs.append("[pacing] returned in phase %s (pending=%s) with positive debt and not at the method's stop "
                          "condition" % (o["phase"], o["pending"]))
     return probs
